@@ -44,44 +44,57 @@ def _history_violations(hist: list[dict[str, Any]], capacity: int, ttl: float) -
             acc.setdefault(op["nonce"], []).append(op)
     for nonce, ops in acc.items():
         for i in range(len(ops)):
-            for j in range(len(ops)):
-                if i == j:
+            for j in range(i + 1, len(ops)):
+                x, y = ops[i], ops[j]
+                # Two accepts of one nonce are legal if SOME linearisation consistent with real time
+                # puts >= ttl of clock between them: p takes effect no earlier than its call, q no later
+                # than its return; q may not precede p if p returned before q was invoked.
+                legal = False
+                for p_, q_ in ((x, y), (y, x)):
+                    if q_["seq_ret"] < p_["seq_call"]:
+                        continue  # q finished before p began: this order is impossible
+                    if q_["clock_ret"] - p_["clock_call"] >= ttl:
+                        legal = True
+                if legal:
                     continue
-                a, b = ops[i], ops[j]
-                if a["seq_call"] > b["seq_call"]:
-                    continue
-                # a was invoked no later than b.  Could both be legal?  Only if some
-                # linearisation puts >= ttl of clock between them, or >= capacity-1
-                # other distinct nonces arrived in between (eviction).
-                if b["clock_ret"] - a["clock_call"] >= ttl:
-                    continue
-                others = {
-                    o["nonce"]
-                    for o in hist
-                    if o["nonce"] != nonce and o["seq_ret"] > a["seq_call"] and o["seq_call"] < b["seq_ret"]
-                }
+                lo = min(x["seq_call"], y["seq_call"])
+                hi = max(x["seq_ret"], y["seq_ret"])
+                others = {o["nonce"] for o in hist if o["nonce"] != nonce and o["seq_ret"] > lo and o["seq_call"] < hi}
                 if len(others) + 1 >= capacity:
-                    continue
-                overlap = b["seq_call"] < a["seq_ret"]
+                    continue  # eviction by capacity may explain it (weaker reading of the statement)
+                overlap = x["seq_call"] < y["seq_ret"] and y["seq_call"] < x["seq_ret"]
                 out.append(
                     (
                         "double_accept:" + ("concurrent" if overlap else "sequential"),
                         "the same nonce was accepted twice inside its window with fewer than capacity distinct nonces",
-                        {"nonce": nonce, "first": a, "second": b, "others": sorted(others)},
+                        {"nonce": nonce, "first": x, "second": y, "others": sorted(others)},
                     )
                 )
     return out
 
 
 def _gen_script(rng: random.Random, nactors: int) -> dict[str, Any]:
-    alphabet = ["n0", "n1", "n2"][: rng.choice([1, 2, 2, 3])]
-    cap = rng.choice([1, 2, 2, 3, 4])
-    ttl = rng.choice([5.0, 5.0, 10.0])
-    actors = []
-    for _ in range(nactors):
-        actors.append([rng.choice(alphabet) for _ in range(rng.choice([1, 2, 2, 3]))])
-    clock = [rng.choice([1.0, 4.0, 5.0, 6.0, 11.0]) for _ in range(rng.choice([0, 1, 1, 2]))]
-    return {"alphabet": alphabet, "capacity": cap, "ttl": ttl, "actors": actors, "clock": clock}
+    """Two script families: few multi-op actors, or many single-op actors.
+
+    With single-op actors (clients submitting one nonce each, clock actors making one step each) a
+    whole actor can run between two steps of another one at the cost of a single preemption, so
+    orderings such as "A reads the clock, the clock advances, B is accepted, A inserts, the clock
+    advances, B is replayed" are inside a small preemption bound.
+    """
+    if rng.random() < 0.5:
+        alphabet = ["n0", "n1", "n2"][: rng.choice([1, 2, 2, 3])]
+        cap = rng.choice([1, 2, 2, 3, 4])
+        ttl = rng.choice([5.0, 5.0, 10.0])
+        actors = [[rng.choice(alphabet) for _ in range(rng.choice([1, 2, 2, 3]))] for _ in range(nactors)]
+        clocks = [[rng.choice([1.0, 4.0, 5.0, 6.0, 11.0]) for _ in range(rng.choice([0, 1, 1, 2]))]]
+        clocks = [c for c in clocks if c]
+    else:
+        alphabet = ["n0", "n1"]
+        cap = rng.choice([3, 4, 4])
+        ttl = 10.0
+        actors = [[rng.choice(alphabet)] for _ in range(rng.choice([3, 3, 4]))]
+        clocks = [[rng.choice([4.0, 5.0, 6.0, 9.0])] for _ in range(rng.choice([1, 2, 2]))]
+    return {"alphabet": alphabet, "capacity": cap, "ttl": ttl, "actors": actors, "clock": clocks}
 
 
 def _make_runner(script: dict[str, Any], mode: str, outcomes: list[Any]):
@@ -123,15 +136,21 @@ def _make_runner(script: dict[str, Any], mode: str, outcomes: list[Any]):
 
         for i, nonces in enumerate(script["actors"]):
             s.actor(f"c{i}", client(nonces))
-        if script["clock"]:
+        clocks = script["clock"]
+        if clocks and not isinstance(clocks[0], list):
+            clocks = [clocks]  # older witness format: one clock actor
 
-            def clock_actor() -> None:
-                for dt in script["clock"]:
+        def clock_actor(steps: list[float]) -> Any:
+            def run() -> None:
+                for dt in steps:
                     s.point("clock.before")
                     s.now += dt
                     s.point("clock.after")
 
-            s.actor("clock", clock_actor)
+            return run
+
+        for k, steps in enumerate(clocks):
+            s.actor(f"clock{k}", clock_actor(steps))
         s.monitor_files(("vgi_rpc/http/_replay.py",), line=(mode == "line"))
         try:
             s.run()
@@ -155,7 +174,7 @@ def run_shard(job: dict[str, Any]) -> dict[str, Any]:
     for si in range(job["scripts"]):
         nact = rng.choice([2, 2, 3])
         script = _gen_script(rng, nact)
-        shape = f"a{nact}:cap{script['capacity']}:alpha{len(script['alphabet'])}:clk{len(script['clock'])}:" + "-".join(
+        shape = f"a{len(script['actors'])}:cap{script['capacity']}:alpha{len(script['alphabet'])}:clk{'+'.join(str(len(c)) for c in script['clock'])}:" + "-".join(
             str(len(a)) for a in script["actors"]
         )
         outcomes: list[Any] = []
@@ -206,7 +225,7 @@ def run_shard(job: dict[str, Any]) -> dict[str, Any]:
         # complement: PCT over line-granular points
         mode_box[0] = "line"
         mk2 = _make_runner(script, "line", outcomes)
-        nact_total = len(script["actors"]) + (1 if script["clock"] else 0)
+        nact_total = len(script["actors"]) + len(script["clock"])
         strategies = [S.PCTStrategy(random.Random(rng.random()), nact_total, depth=3, horizon=120) for _ in range(job["pct"])]
         st2 = S.explore_sampled(mk2, strategies, on_done=judge)
         chk.extra["pct_schedules"] = chk.extra.get("pct_schedules", 0) + st2["schedules"]
@@ -222,7 +241,7 @@ def main(tier: str, seed: int) -> int:
         "history judged with interval semantics: an operation may take effect at any clock value between call and return",
         "replay judged only when (#other distinct nonces in the window)+1 < capacity (the weaker reading of the statement)",
     ]
-    n = shard.ncpu()
+    n = 12  # fixed shard count: the amount of work must not grow with the machine
     quick = tier == "quick"
     jobs = [
         {"tier": tier, "seed": seed * 100 + i, "scripts": 3 if quick else 6, "bound": 2 if quick else 3, "max_dfs": 400 if quick else 2500, "pct": 40 if quick else 400}
